@@ -243,7 +243,7 @@ PENDING = {
 
 # what the searches cover beyond the texts above (added as the seeded-change rounds and the fix reverts asked for it)
 ADDED = {
-    "C03": "Also in the search: datasets that share their last dimension by name (knob shareddims).",
+    "C03": "Also in the search: datasets that share their last dimension by name (knob shareddims); strided requests with count 0 in one dimension (a write changes nothing, a read delivers nothing).",
     "C01": "Also in the search: HLconvert on an element that has a descriptor and no data yet, before its first byte.",
     "C02": "Also in the search: datasets stored low byte first, the largest reference number in use and elements stored "
            "under references the library hands out (mixed workload). An element promoted to linked blocks before its first byte; fill-mode switches; the first chunk of every chunked image is read as a whole before anything else is read through the image id.",
